@@ -18,7 +18,7 @@ ASSUMPTIONS = [
     "all items boolean (stated)", "process-wide lru caches are cleared per configurator (they are state under test only in C09)",
     "the -2 tags are read from the real objects (default_prios) and cross-checked against the AST: one tagged inner node per defaulted rule, over exactly the non-default items",
 ]
-BOUNDS = {"quick": "all 1..2-rule configurators (both id policies) + every third 3-rule configurator (explicit ids), 116 dictionaries", "thorough": "all 1..3-rule configurators, both id policies, 116 dictionaries"}
+BOUNDS = {"quick": "all 1..2-rule configurators (both id policies) + every sixth 3-rule configurator (explicit ids), 116 dictionaries in one call + the empty and every 8th dictionary in a call of its own", "thorough": "all 1..3-rule configurators, both id policies, 116 dictionaries"}
 
 
 _CFG = {}
@@ -28,8 +28,8 @@ def cfgs(tier):
     if tier not in _CFG:
         three = [c for c in cfgspace.configurators(3, ("explicit",)) if len(c[1][3]) == 3]
         if tier == "quick":
-            # the two-rule space completely, plus every third three-rule configurator (a fixed sub-space, not a sample per run)
-            _CFG[tier] = list(cfgspace.configurators(2)) + three[::3]
+            # the two-rule space completely, plus every sixth three-rule configurator (a fixed sub-space, not a sample per run)
+            _CFG[tier] = list(cfgspace.configurators(2)) + three[::6]
         else:
             _CFG[tier] = list(cfgspace.configurators(2)) + three + [c for c in cfgspace.configurators(3, ("generated",)) if len(c[1][3]) == 3]
     return _CFG[tier]
@@ -184,10 +184,30 @@ def check_cfg(k, tier, acc, only=None, via_json=False):
         acc.violation(None, case0, {"what": "solver did not receive one objective per priority dictionary", "n_calls": len(cap.calls)})
         return
     objs = cap.calls[0][1]
-    for pi, (prio, o) in enumerate(zip(prios, objs)):
+    # the same dictionaries handed over ONE PER CALL (and the empty one twice in one call): the objective of a dictionary may not depend
+    # on what else is in the batch. Explored for the empty dictionary, every 8th other one, and any dictionary named by a replay.
+    singles = [pi for pi, p_ in enumerate(prios) if not p_ or pi % 8 == 3]
+    work = [(pi, prios[pi], objs[pi], False) for pi in range(len(prios))]
+    for pi in singles:
         if only is not None and pi != only:
             continue
-        case = dict(case0, pi=pi)
+        cap1 = cfgspace.Capture("exact")
+        try:
+            batch = [dict(prios[pi])] * (2 if not prios[pi] else 1)
+            s1 = list(cfg.select(*batch, solver=cap1))
+        except BaseException as e:
+            acc.violation(None, dict(case0, pi=pi, single=True), {"what": "select raised on a single dictionary", "exc": repr(e), "prios": prios[pi]})
+            continue
+        acc.n("transitions")
+        if len(cap1.calls) != 1 or len(cap1.calls[0][1]) != len(batch):
+            acc.violation(None, dict(case0, pi=pi, single=True), {"what": "solver did not receive one objective per priority dictionary", "n_calls": len(cap1.calls)})
+            continue
+        for o1 in cap1.calls[0][1]:
+            work.append((pi, prios[pi], o1, True))
+    for pi, prio, o, single in work:
+        if only is not None and pi != only:
+            continue
+        case = dict(case0, pi=pi, single=single)
         acc.n("traces")
         o = np.asarray(o, dtype=np.int64)
         acc.obs(o.tolist())
@@ -213,6 +233,8 @@ def check_cfg(k, tier, acc, only=None, via_json=False):
                                        "better": {"x": F[b].tolist(), "key": keys[b], "value": int(vals[b])}, "tagged": sorted(map(str, tagged))})
             continue
         nkeys = len(set(keys))
+        if single:
+            continue
         acc.hist("distinct_keys", min(nkeys, 9))
         if nkeys >= 3:
             acc.nontriv((ast, pi))
